@@ -187,10 +187,15 @@ type Frame struct {
 	depth   int
 	tag     string // loop tag prefix inherited from callers
 	id      int
+	// flag-controlled loop header about to be evaluated: 1 = only the successor inside the loop may be
+	// taken (first visit: the flag's initial value enters the loop), 2 = only the successor outside (the
+	// flag as the iteration left it ends the loop); consumed by the header's If
+	hdrMode  int
+	hdrBlock *ssa.BasicBlock
 }
 
 func (f *Frame) clone() *Frame {
-	n := &Frame{fn: f.fn, depth: f.depth, tag: f.tag, id: f.id}
+	n := &Frame{fn: f.fn, depth: f.depth, tag: f.tag, id: f.id, hdrMode: f.hdrMode, hdrBlock: f.hdrBlock}
 	n.env = make(map[ssa.Value]Val, len(f.env))
 	for k, v := range f.env {
 		n.env[k] = v
@@ -599,6 +604,126 @@ func (x *Explorer) callFn(fn *ssa.Function, args []Val, binds []Val, st *State, 
 	x.runBlock(fr, fn.Blocks[0], nil, st, k)
 }
 
+// condKnown: the truth value of a condition value if the path decides it.
+func condKnown(st *State, cond Val) (bool, bool) {
+	switch c := cond.(type) {
+	case *KConst:
+		return c.S == "true", c.S == "true" || c.S == "false"
+	case *BoolV:
+		if v, ok := st.known(c.F); ok {
+			return v != c.Neg, true
+		}
+	default:
+		if cond != nil {
+			if v, ok := st.known("Cond(" + vstr(cond) + ")"); ok {
+				return v, true
+			}
+		}
+	}
+	return false, false
+}
+
+// flagPhi: the header does nothing but test one of its own boolean φs (possibly negated) and has one
+// successor inside and one outside the loop — a loop controlled by a flag. Returns that φ.
+func flagPhi(b *ssa.BasicBlock, body map[*ssa.BasicBlock]bool) *ssa.Phi {
+	if len(b.Succs) != 2 || body[b.Succs[0]] == body[b.Succs[1]] || len(b.Instrs) == 0 {
+		return nil
+	}
+	ifi, ok := b.Instrs[len(b.Instrs)-1].(*ssa.If)
+	if !ok {
+		return nil
+	}
+	cond := ifi.Cond
+	var not *ssa.UnOp
+	if u, isU := cond.(*ssa.UnOp); isU && u.Op == token.NOT {
+		not, cond = u, u.X
+	}
+	ph, ok := cond.(*ssa.Phi)
+	if !ok || ph.Block() != b || phiOfNextCalls(ph) {
+		return nil
+	}
+	for _, in := range b.Instrs {
+		switch x := in.(type) {
+		case *ssa.Phi, *ssa.If, *ssa.DebugRef:
+		case *ssa.UnOp:
+			if x != not {
+				return nil
+			}
+		default:
+			return nil
+		}
+	}
+	return ph
+}
+
+// flagEnters: the flag's value on every entry from outside the loop is a constant with which the header
+// goes into the body (the loop cannot end before its first iteration).
+func (x *Explorer) flagEnters(fr *Frame, st *State, fl *ssa.Phi, b *ssa.BasicBlock, body map[*ssa.BasicBlock]bool) bool {
+	ifi := b.Instrs[len(b.Instrs)-1].(*ssa.If)
+	_, negated := ifi.Cond.(*ssa.UnOp)
+	for i, p := range b.Preds {
+		if body[p] {
+			continue
+		}
+		c, ok := fl.Edges[i].(*ssa.Const)
+		if !ok || c.Value == nil {
+			return false
+		}
+		v := c.Value.String() == "true"
+		if negated {
+			v = !v
+		}
+		// true → Succs[0]
+		target := b.Succs[1]
+		if v {
+			target = b.Succs[0]
+		}
+		if !body[target] {
+			return false
+		}
+	}
+	return true
+}
+
+// phiOfNextCalls: every edge of the φ is the result of Next() invoked on one and the same iterator value.
+func phiOfNextCalls(ph *ssa.Phi) bool {
+	var recv ssa.Value
+	for _, e := range ph.Edges {
+		c, ok := e.(*ssa.Call)
+		if !ok || !c.Call.IsInvoke() || c.Call.Method.Name() != "Next" {
+			return false
+		}
+		if recv != nil && !sameSSAValue(c.Call.Value, recv, 0) {
+			return false
+		}
+		recv = c.Call.Value
+	}
+	return recv != nil
+}
+
+// sameSSAValue: the two registers hold the same value by construction (identical, or the same embedded
+// field / conversion of values that are).
+func sameSSAValue(a, b ssa.Value, depth int) bool {
+	if a == b {
+		return true
+	}
+	if depth > 4 {
+		return false
+	}
+	switch x := a.(type) {
+	case *ssa.Field:
+		y, ok := b.(*ssa.Field)
+		return ok && x.Field == y.Field && sameSSAValue(x.X, y.X, depth+1)
+	case *ssa.ChangeInterface:
+		y, ok := b.(*ssa.ChangeInterface)
+		return ok && sameSSAValue(x.X, y.X, depth+1)
+	case *ssa.MakeInterface:
+		y, ok := b.(*ssa.MakeInterface)
+		return ok && sameSSAValue(x.X, y.X, depth+1)
+	}
+	return false
+}
+
 // runBlock enters block b coming from pred.
 func (x *Explorer) runBlock(fr *Frame, b *ssa.BasicBlock, pred *ssa.BasicBlock, st *State, k cont) {
 	if x.Stats.Paths > x.pathCap {
@@ -665,6 +790,45 @@ func (x *Explorer) runBlock(fr *Frame, b *ssa.BasicBlock, pred *ssa.BasicBlock, 
 					}
 				}
 			}
+			// a loop ended by a flag the body sets (`for done := false; !done; { …; done = … }`): the header
+			// tests what this iteration left in the flag, so the way out of the loop continues this
+			// iteration — exactly as a `break` at the end of the body would
+			if fl := flagPhi(b, li.body[b]); fl != nil && x.flagEnters(fr, st, fl, b, li.body[b]) {
+				st2, fr2 := st.clone(), fr.clone()
+				var phis []*ssa.Phi
+				var vals []Val
+				for _, in := range b.Instrs {
+					ph, ok := in.(*ssa.Phi)
+					if !ok {
+						break
+					}
+					phis = append(phis, ph)
+					vals = append(vals, x.eval(fr2, st2, ph.Edges[predIndex(b, pred)]))
+				}
+				for i, ph := range phis {
+					fr2.env[ph] = vals[i]
+				}
+				// does the flag, as this iteration left it, certainly end the loop? Then this was the last
+				// iteration, not one that is followed by another
+				ifi := b.Instrs[len(b.Instrs)-1].(*ssa.If)
+				var flagVal Val = fr2.env[fl]
+				certain := false
+				if v, known := condKnown(st2, flagVal); known {
+					if _, negated := ifi.Cond.(*ssa.UnOp); negated {
+						v = !v
+					}
+					target := b.Succs[1]
+					if v {
+						target = b.Succs[0]
+					}
+					certain = !li.body[b][target]
+				}
+				fr2.hdrMode, fr2.hdrBlock = 2, b
+				x.runInstrs(fr2, b, firstNonPhi(b), st2, k)
+				if certain {
+					return
+				}
+			}
 			k(st, nil, exitLoopback, tag)
 			return
 		}
@@ -681,6 +845,13 @@ func (x *Explorer) runBlock(fr *Frame, b *ssa.BasicBlock, pred *ssa.BasicBlock, 
 				name = ph.Comment
 			}
 			hv := x.havoc(st, fr, ph, tag+name)
+			// `for more := it.Next(); more; more = it.Next()`: the φ holds the result of the latest Next()
+			// of one iterator on every edge — it is such a result, not an unknown boolean
+			if ib, isB := init.(*BoolV); isB && !ib.Neg && strings.HasPrefix(ib.F, "IterNext(") && phiOfNextCalls(ph) {
+				if c := strings.Index(ib.F, ","); c > 0 {
+					hv = &BoolV{F: fmt.Sprintf("%s,%d)", ib.F[:c], st.newID())}
+				}
+			}
 			fr.env[ph] = hv
 			rec.Phis = append(rec.Phis, PhiRec{Name: ph.Name(), Init: init, Havoc: hv})
 		}
@@ -690,6 +861,9 @@ func (x *Explorer) runBlock(fr *Frame, b *ssa.BasicBlock, pred *ssa.BasicBlock, 
 		// them like φs (initial value, havoc'd value, value at the back edge) so that accumulators kept in a
 		// struct or a captured variable are closed by the same induction
 		rec.Phis = append(rec.Phis, x.havocLoopMemory(fr, st, b, li.body[b], tag)...)
+		if fl := flagPhi(b, li.body[b]); fl != nil && x.flagEnters(fr, st, fl, b, li.body[b]) {
+			fr.hdrMode, fr.hdrBlock = 1, b
+		}
 		st.loops = append(st.loops, rec)
 		st.events = append(st.events, Event{Kind: "loopenter", Method: tag, Loop: tag, Fn: fr.fn, Seq: len(st.events)})
 	} else if pred != nil {
@@ -907,7 +1081,22 @@ func (x *Explorer) runInstrs(fr *Frame, b *ssa.BasicBlock, idx int, st *State, k
 // branch evaluates an If.
 func (x *Explorer) branch(fr *Frame, b *ssa.BasicBlock, ins *ssa.If, st *State, k cont) {
 	cond := x.eval(fr, st, ins.Cond)
-	take := func(which int, st *State, fr *Frame) { x.runBlock(fr, b.Succs[which], b, st, k) }
+	mode := 0
+	if fr.hdrBlock == b {
+		mode = fr.hdrMode
+	}
+	take := func(which int, st *State, fr *Frame) {
+		if fr.hdrBlock == b {
+			fr.hdrMode, fr.hdrBlock = 0, nil
+		}
+		if mode != 0 {
+			inLoop := x.loopsOf(fr.fn).body[b][b.Succs[which]]
+			if (mode == 1 && !inLoop) || (mode == 2 && inLoop) {
+				return
+			}
+		}
+		x.runBlock(fr, b.Succs[which], b, st, k)
+	}
 	switch c := cond.(type) {
 	case *KConst:
 		if c.S == "true" {
